@@ -28,6 +28,9 @@ type nodeData struct {
 	archetypeData     pagedSlice[archetypeData]
 	neighbors         idMap[*archNode] // Mapping from component ID to add/remove, to the resulting archetype
 	capacityIncrement uint32           // Capacity increment
+
+	// Types of the components that contain pointers, by component ID. Those are copied with write barriers.
+	pointerTypes idMap[reflect.Type]
 }
 
 // Creates a new archNode
@@ -70,6 +73,12 @@ func newArchNode(mask Mask, data *nodeData, relation ID, hasRelation bool, capac
 	data.zeroValue = zeroValue
 	data.zeroPointer = zeroPointer
 	data.neighbors = newIDMap[*archNode]()
+	data.pointerTypes = newIDMap[reflect.Type]()
+	for _, c := range components {
+		if hasPointers(c.Type) {
+			data.pointerTypes.Set(c.ID.id, c.Type)
+		}
+	}
 
 	return archNode{
 		nodeData:    data,
